@@ -205,6 +205,20 @@ Definition select_candidate_at (s : state) (index : Z) : state * bool :=
       select s (size_of_int (page_start + index))
   end.
 
+(** the candidate index a key selects on the current page, or -1 *)
+Definition select_key_index (k : key) : Z :=
+  let ch := k_code k in
+  let select_keys := cf_select_keys cfg in
+  if negb (match select_keys with [] => true | _ => false end) && negb (k_ctrl k)
+     && (32 <=? ch)%Z && (ch <? 127)%Z
+  then match find_byte (byte_of_N (Z.to_N ch)) select_keys with
+       | Some pos => Z.of_nat pos
+       | None => (-1)%Z
+       end
+  else if (XK_0 <=? ch)%Z && (ch <=? XK_9)%Z then (((ch - XK_0) + 9) mod 10)%Z
+  else if (XK_KP_0 <=? ch)%Z && (ch <=? XK_KP_9)%Z then (((ch - XK_KP_0) + 9) mod 10)%Z
+  else (-1)%Z.
+
 Definition selector_process (s : state) (k : key) : state * presult :=
   if k_release k || k_alt k || k_super k then (s, PNoop)
   else
@@ -217,18 +231,7 @@ Definition selector_process (s : state) (k : key) : state * presult :=
         let (s1, r) := kbp_process run_sel_action (sel_keymap c) false s k in
         if negb (presult_is_noop r) then (s1, r)
         else
-          let ch := k_code k in
-          let select_keys := cf_select_keys cfg in
-          let index :=
-            if negb (match select_keys with [] => true | _ => false end) && negb (k_ctrl k)
-               && (32 <=? ch)%Z && (ch <? 127)%Z
-            then match find_byte (byte_of_N (Z.to_N ch)) select_keys with
-                 | Some pos => Z.of_nat pos
-                 | None => (-1)%Z
-                 end
-            else if (XK_0 <=? ch)%Z && (ch <=? XK_9)%Z then (((ch - XK_0) + 9) mod 10)%Z
-            else if (XK_KP_0 <=? ch)%Z && (ch <=? XK_KP_9)%Z then (((ch - XK_KP_0) + 9) mod 10)%Z
-            else (-1)%Z in
+          let index := select_key_index k in
           if (0 <=? index)%Z then (fst (select_candidate_at s1 index), PAccepted)
           else (s1, PNoop)
     end.
